@@ -98,7 +98,8 @@ func setPAData(cl *Client, krberr *messages.KRBError, ASReq *messages.ASReq) err
 			if err != nil {
 				return krberror.Errorf(err, krberror.EncryptingError, "error getting etype for pre-auth encryption")
 			}
-			key, kvno, err = cl.Key(et, 0, nil)
+			// the salt and parameters the KDC gave earlier still describe the client's key
+			key, kvno, err = cl.Key(et, 0, cl.settings.negotiatedPreAuthHints())
 			if err != nil {
 				return krberror.Errorf(err, krberror.EncryptingError, "error getting key from credentials")
 			}
@@ -108,7 +109,7 @@ func setPAData(cl *Client, krberr *messages.KRBError, ASReq *messages.ASReq) err
 			if err != nil {
 				return krberror.Errorf(err, krberror.EncryptingError, "error getting etype for pre-auth encryption")
 			}
-			cl.settings.setNegotiatedPreAuthEType(et.GetETypeID()) // Set the etype that has been defined for potential future use
+			cl.settings.setNegotiatedPreAuthEType(et.GetETypeID(), krberr) // Set the etype that has been defined for potential future use
 			key, kvno, err = cl.Key(et, 0, krberr)
 			if err != nil {
 				return krberror.Errorf(err, krberror.EncryptingError, "error getting key from credentials")
